@@ -72,7 +72,13 @@ func SchemaRef() {
 			verifrt.Known(id, o == acc)
 		}
 		try("KF-C06-empty-document", sig, Liberties{EmptyDocument: true})
-		try("KF-C06-string-keyword", StringKeywordsAsNames(sig), Liberties{})
+		sk := false
+		for _, v := range StringKeywordVariants(sig) {
+			if o, _ := RefSchema(v, Liberties{}); o == acc {
+				sk, single = true, true
+			}
+		}
+		verifrt.Known("KF-C06-string-keyword", sk)
 		try("KF-C06-schema-without-operation-types", sig, Liberties{SchemaWithoutOpTypes: true})
 		try("KF-C06-extend-input-nonconst-directive", sig, Liberties{ExtendInputNonConst: true})
 		try("KF-C06-extend-interface-implements", sig, Liberties{NoExtendIfaceImplement: true})
@@ -81,10 +87,17 @@ func SchemaRef() {
 		if !single {
 			// several of the listed findings in one input
 			all := Liberties{EmptyDocument: true, SchemaWithoutOpTypes: true, ExtendInputNonConst: true, EnumValueKeyword: true, EmptyDescBeforeExtend: true}
-			oa, _ := RefSchema(StringKeywordsAsNames(sig), all)
-			all.NoExtendIfaceImplement = true
-			ob, _ := RefSchema(StringKeywordsAsNames(sig), all)
-			verifrt.Known("KF-C06-combination", oa == acc || ob == acc)
+			restricted := all
+			restricted.NoExtendIfaceImplement = true
+			comb := false
+			for _, v := range append(StringKeywordVariants(sig), sig) {
+				oa, _ := RefSchema(v, all)
+				ob, _ := RefSchema(v, restricted)
+				if oa == acc || ob == acc {
+					comb = true
+				}
+			}
+			verifrt.Known("KF-C06-combination", comb)
 		}
 	}
 	verifrt.Assert((err == nil) == ok, "C06.accepts-iff-derivable")
@@ -101,6 +114,27 @@ func SchemaRef() {
 		return
 	}
 	got := WalkSchema(doc)
+	if !SameEvents(got, want) {
+		// the string-keyword finding can change the tree without changing the verdict
+		// (type a "implements" input b: a description for the strict grammar, a keyword for the library)
+		explained := false
+		all := Liberties{SchemaWithoutOpTypes: true, EnumValueKeyword: true, EmptyDescBeforeExtend: true, ExtendInputNonConst: true}
+		for _, v := range StringKeywordVariants(sig) {
+			if o, ev := RefSchema(v, Liberties{}); o && SameEvents(got, ev) {
+				explained = true
+			}
+		}
+		verifrt.Known("KF-C06-string-keyword", explained)
+		if !explained {
+			comb := false
+			for _, v := range StringKeywordVariants(sig) {
+				if o, ev := RefSchema(v, all); o && SameEvents(got, ev) {
+					comb = true
+				}
+			}
+			verifrt.Known("KF-C06-combination", comb)
+		}
+	}
 	verifrt.Assert(SameEvents(got, want), "C06.same-tree")
 	for _, d := range doc.Definitions {
 		verifrt.Assert(d.BuiltIn == src.BuiltIn, "C06.builtin-flag")
